@@ -3,6 +3,7 @@
 Every construct or call it does not know raises Unsupported -> the function is refused (exit 2 at
 the check level); nothing is guessed. Integers are mathematical integers with the explicit overflow
 asserts of dev-profile MIR; f64 is either exact IEEE (mode 'fp') or the real relaxation (mode 'real')."""
+import functools
 import re
 
 import z3
@@ -29,6 +30,7 @@ RM = z3.RNE()
 F64 = z3.Float64()
 
 
+@functools.lru_cache(maxsize=200000)
 def split_call(t):
     """'[dst = ]callee(args) -> [return: bbN, unwind ...]' -> (dst, callee, argtext, next)"""
     m = re.search(r" -> (?:\[return: (bb\d+), unwind[^\]]*\]|(unwind .*))$", t)
@@ -98,6 +100,7 @@ class Outcome:
         return "Outcome(%s %s %s)" % (self.kind, self.value if self.kind == "return" else self.msg, self.where)
 
 
+@functools.lru_cache(maxsize=100000)
 def norm_type(ty):
     ty = ty.strip()
     changed = True
@@ -549,6 +552,8 @@ class Exec:
         raise Unsupported("write place %s" % (p,))
 
     def operand(self, o, env, fn):
+        if o[0] == "fnitem":
+            return FnPtrV(o[1])
         if o[0] in ("copy", "move"):
             return self.read_place(o[1], env, fn)
         return self.const_value(o[1], fn)
@@ -939,7 +944,7 @@ class Exec:
     def trait_impl(self, name):
         """`<Type as Trait>::method` -> the function of `impl Trait for Type` (Self type read from the source line
         the MIR's `<impl at file:line:..>` points to)"""
-        m = re.match(r"^<&?([\w:]+) as ([\w:]+)(?:<&?([\w:]+)>)?>::(\w+)$", name.replace("::<'_>", "").replace("<'_>", ""))
+        m = re.match(r"^<&?(?:(?:alloc::rc::)?Rc<)?([\w:]+)>? as ([\w:]+)(?:<&?(?:(?:alloc::rc::)?Rc<)?([\w:]+)>?>)?>::(\w+)$", name.replace("::<'_>", "").replace("<'_>", ""))
         if not m:
             return None
         ty, trait, targ, meth = last_seg(m.group(1)), last_seg(m.group(2)), (last_seg(m.group(3)) if m.group(3) else None), m.group(4)
